@@ -20,7 +20,8 @@ const (
 // beginning of most Image files, so this likely doesn't have a high cost.
 func ScanTiffHeader(r io.Reader, it imagetype.ImageType) (header meta.ExifHeader, err error) {
 	br, ok := r.(*bufio.Reader)
-	if !ok {
+	if !ok || br.Size() < TiffHeaderLength {
+		// a smaller buffer could never hold the header window peeked below
 		br = bufio.NewReader(r)
 	}
 	discarded := 0
